@@ -46,7 +46,8 @@ Readings (weakest reasonable):
     Monotonic growth inside the chain is not demanded.
   * deleting a record that is absent / adding one that is present (IXFR), duplicates (AXFR),
     and records outside the zone: either (lenient continuation: ignore / idempotent).
-  * an SOA that is inside the zone but not at the apex: invalid.
+  * an SOA that is inside the zone but not at the apex: invalid when it would become zone
+    content (in an IXFR deletion part it is a deletion of an absent record).
   * an apex SOA different from the first one inside an AXFR(-style) body: invalid.
   * IXFR answer "SOA(T) SOA(T)": either (empty difference sequence or AXFR-style transfer of
     an SOA-only zone).
@@ -213,7 +214,10 @@ def _run(pre, serial, qtype, udp, messages, ooz_counts):
             st["mode"] = "undecided"
             return
         if rtype == "SOA" and not ooz and owner != "@":
-            raise _Invalid("non-apex-soa")
+            # an SOA below the apex cannot become zone content; asking to *delete* one is just
+            # a deletion of an absent record (handled below)
+            if not (st["mode"] == "inc" and st["phase"] == "del"):
+                raise _Invalid("non-apex-soa")
         apex_soa = is_apex_soa(rec)
         if st["mode"] == "undecided":
             if apex_soa:
